@@ -323,11 +323,12 @@ func (e *EdgeQuery) Distance(target distanceTarget) s1.ChordAngle {
 //
 //	query.IsDistanceLess(target, limit.Successor())
 func (e *EdgeQuery) IsDistanceLess(target distanceTarget, limit s1.ChordAngle) bool {
-	opts := e.opts
-	opts = opts.MaxResults(1).
+	// Work on a copy: the options the caller configured must not change.
+	opts := *e.opts
+	opts.MaxResults(1).
 		DistanceLimit(limit).
 		MaxError(s1.StraightChordAngle)
-	return !e.findEdge(target, opts).IsEmpty()
+	return !e.findEdge(target, &opts).IsEmpty()
 }
 
 // IsDistanceGreater reports if the distance to target is greater than limit.
@@ -369,6 +370,11 @@ func (e *EdgeQuery) IsConservativeDistanceGreaterOrEqual(target distanceTarget, 
 // entries with edgeID == -1. This indicates that the target intersects the
 // indexed polygon with the given shapeID.
 func (e *EdgeQuery) findEdges(target distanceTarget, opts *queryOptions) []EdgeQueryResult {
+	// findEdgesInternal installs opts as the current options for the duration
+	// of the search; the query's own options are restored afterwards so that
+	// one call (e.g. a threshold test) cannot affect the next.
+	saved := e.opts
+	defer func() { e.opts = saved }()
 	e.findEdgesInternal(target, opts)
 	// TODO(roberts): Revisit this if there is a heap or other sorted and
 	// uniquing datastructure we can use instead of just a slice.
@@ -401,8 +407,9 @@ func sortAndUniqueResults(results []EdgeQueryResult) []EdgeQueryResult {
 // This is primarily to ease the usage of a number of the methods in the DistanceTargets
 // and in EdgeQuery.
 func (e *EdgeQuery) findEdge(target distanceTarget, opts *queryOptions) EdgeQueryResult {
-	opts.MaxResults(1)
-	e.findEdges(target, opts)
+	single := *opts
+	single.MaxResults(1)
+	e.findEdges(target, &single)
 	if len(e.results) > 0 {
 		return e.results[0]
 	}
